@@ -235,8 +235,8 @@ fn in_process_case(cx: &mut CaseCtx, input: Input, cfg: &GenCfg) -> CaseResult {
 /// file; with and without a use of the colliding name.
 fn collision_case(cx: &mut CaseCtx, input: Input) -> CaseResult {
     let idx = input.index();
-    let template = idx % 17;
-    let with_use = (idx / 17) % 2 == 1;
+    let template = idx % 19;
+    let with_use = (idx / 19) % 2 == 1;
     let files: Vec<(&str, String)> = match template {
         0 => vec![("a.slice", "module A\nstruct X {}\n".into()), ("b.slice", "module A\ncustom X\n".into())],
         1 => vec![
@@ -316,6 +316,18 @@ fn collision_case(cx: &mut CaseCtx, input: Input) -> CaseResult {
             ("b.slice", format!("module M2\nstruct Helper {{}}\n/// @see Helper\nstruct UserTwo {{}}\n{}", if with_use { "/// Overview {@link Helper}.\nstruct Third {}\n" } else { "" })),
             ("c.slice", "module M3\n/// Has an overview.\nstruct Other {}\n/// @see M1::Helper\ncustom Last\n".into()),
         ],
+        // a module declared by several files: every declaration carries its own attributes, an
+        // illegal one on any of them is an error wherever that file stands
+        17 => vec![
+            ("a.slice", "module Shared\nstruct A {}\n".into()),
+            ("b.slice", format!("{} module Shared\nstruct B {{}}\n", if with_use { "[deprecated]" } else { "[oneway]" })),
+            ("c.slice", "module Shared\nstruct C { a: A, b: B }\n".into()),
+        ],
+        18 => vec![
+            ("a.slice", "[cs::fine] module Shared::Inner\nstruct A {}\n".into()),
+            ("b.slice", "module Shared::Inner\ncustom B\n".into()),
+            ("c.slice", format!("[allow(Deprecated)] {} module Shared::Inner\nstruct C {{}}\n", if with_use { "[allow(All)]" } else { "" })),
+        ],
         _ => vec![
             ("a.slice", "module M\nenum Outer { A(x: Inner) }\nstruct Before { o: Outer }\n".into()),
             ("b.slice", format!("module M\nstruct Inner {{ back: {} }}\n", if with_use { "Dictionary<int32, Outer>" } else { "Outer?" })),
@@ -329,6 +341,7 @@ fn collision_case(cx: &mut CaseCtx, input: Input) -> CaseResult {
     cx.label_if(matches!(template, 8 | 9), "cycle-across-files");
     cx.label_if(matches!(template, 10..=13), "member-vs-module");
     cx.label_if(matches!(template, 14 | 15), "definition-vs-enclosing-scope-of-a-module");
+    cx.label_if(matches!(template, 17 | 18), "module-declared-by-several-files-with-attributes");
     let dir = CaseDir::new(&cx.workdir, cx.shard, cx.case_no);
     for (n, t) in &files {
         dir.write(n, t.as_bytes());
@@ -494,7 +507,7 @@ impl Check for C15 {
         "C15"
     }
     fn rule(&self) -> String {
-        "families: in-process = proptest choice sequences -> multi-file programs (1..4 files, cross-file and cross-module references, aliases, inheritance, re-opened modules; valid, with warnings, or with one injected error) written to real files and compiled with compile_from_options in every permutation of the files and every source/reference assignment: acceptance, per-path observed content and the multiset of warnings (code, level, message, span) must not change, also when one file is listed twice (adjacent or apart); collisions = 34 templates (same definition in two files, definition vs nested module of another file, enumerator / field / operation / parameter / return member vs module of another file, preprocessor symbols defined in one file and tested in another, containment cycles spread over files and used from outside; each with and without a variation) in every order and every source/reference assignment; repetition = six texts with several errors of one kind on one element, compiled twelve times in one process (and by sixteen processes): the recorded list is the same every time; binary = the same argv (one generator with five arguments; now and then an extra module-less file at a drawn position) twice in fresh processes (byte-identical stdout, stderr, exit status, generator request) plus one random permutation and reference assignment (acceptance and per-path decoded request content). Non-trivial = >= 2 files".into()
+        "families: in-process = proptest choice sequences -> multi-file programs (1..4 files, cross-file and cross-module references, aliases, inheritance, re-opened modules; valid, with warnings, or with one injected error) written to real files and compiled with compile_from_options in every permutation of the files and every source/reference assignment: acceptance, per-path observed content and the multiset of warnings (code, level, message, span) must not change, also when one file is listed twice (adjacent or apart); collisions = 38 templates (same definition in two files, definition vs nested module of another file, enumerator / field / operation / parameter / return member vs module of another file, preprocessor symbols defined in one file and tested in another, containment cycles spread over files and used from outside; each with and without a variation) in every order and every source/reference assignment; repetition = six texts with several errors of one kind on one element, compiled twelve times in one process (and by sixteen processes): the recorded list is the same every time; binary = the same argv (one generator with five arguments; now and then an extra module-less file at a drawn position) twice in fresh processes (byte-identical stdout, stderr, exit status, generator request) plus one random permutation and reference assignment (acceptance and per-path decoded request content). Non-trivial = >= 2 files".into()
     }
     fn assumptions(&self) -> Vec<String> {
         vec!["only the order of files and of reports may change; error diagnostics of rejected programs are not compared across arrangements (only that they are rejected)".into()]
@@ -534,7 +547,7 @@ impl Check for C15 {
         };
         let cfg2 = cfg.clone();
         vec![
-            Family::enumerate("collisions", 34, 1, collision_case),
+            Family::enumerate("collisions", 38, 1, collision_case),
             Family::enumerate("repetition", 6 * 16, 1, repetition_case),
             Family::bytes("in-process", 700, tier.pick(600, 8_000), move |cx, i| in_process_case(cx, i, &cfg)),
             Family::bytes("binary", 700, tier.pick(60, 1_000), move |cx, i| binary_case(cx, i, &cfg2)),
